@@ -293,7 +293,7 @@ def pairs_case(draw):
 @st.composite
 def trace_strategy(draw):
     r = draw(run_spec(families=ALL_FAMILIES, n_max=8, jac_modes=("callable",), maxiter=(1, 30), maxfun=(2, 150), units=True, small_ls=draw(st.booleans()),
-                      ftols=(0.0, 1e-12), gtols=(1e-8, 1e-6), with_scaler=True, maxcor_max=6))
+                      ftols=(0.0, 1e-12), gtols=(1e-8, 1e-6), with_scaler=True, maxcor_max=6, extras=True))
     nr = draw(st.sampled_from([0, 1, 2, 3]))
     restarts = [{"dit": draw(st.sampled_from([0, 1, 2, 5])), "maxcor": draw(st.sampled_from([None, None, 1, 2, 4])), "eps_SY": draw(st.sampled_from([None, None, 1e-3, 1.0]))}
                 for _ in range(nr)]
